@@ -105,6 +105,21 @@ Theorem reset_restores_every_leaf : reset_all = true.
 Proof. exact reset_all_ok. Qed.
 Print Assumptions reset_restores_every_leaf.
 
+(* within ONE call the two notations are NOT equivalent when an underscore key is followed by the plain key with
+   the same head (open finding notations/mixed-call:underscore-then-nested): the underscore leaf is lost, while the
+   other order keeps both.  lw_all above is about one leaf per call. *)
+Theorem notations_equivalent_within_one_call_refuted :
+  leaf_is schema_BaseStyle (updated arg_nested_then_under) ["path"; "marker"; "size"] (Some (VInt 9)) = true /\
+  leaf_is schema_BaseStyle (updated arg_nested_then_under) ["path"; "line"; "width"] (Some (VInt 5)) = true /\
+  leaf_is schema_BaseStyle (updated arg_under_then_nested) ["path"; "marker"; "size"] (Some (VInt 9)) = true /\
+  leaf_is schema_BaseStyle (updated arg_under_then_nested) ["path"; "line"; "width"] None = true /\
+  magic_to_dict arg_under_then_nested = [("path", Node [("marker", Node [("size", Leaf (Some (VInt 9)))])])] /\
+  (* shallow merge: a nested dict followed by a key that re-opens its sub-dictionary `line` *)
+  leaf_is schema_BaseStyle (updated arg_nested_then_reopened) ["path"; "line"; "color"] (Some (VStr "red")) = true /\
+  leaf_is schema_BaseStyle (updated arg_nested_then_reopened) ["path"; "line"; "width"] None = true.
+Proof. exact mixed_call_witness. Qed.
+Print Assumptions notations_equivalent_within_one_call_refuted.
+
 (* ---- the style setter: obj.style = <dict | style instance | anything else> ---- *)
 (* assigning an instance of the style class wins over everything assigned before, for every schema / state /
    instance (the dict case is `update`, covered by lw_all) *)
